@@ -60,6 +60,7 @@ def parse(src, fmt, **kw):
         return cdd.docstring.parse.docstring(src, **kw)
     if fmt == "json_schema":
         return cdd.json_schema.parse.json_schema(json.loads(src), **kw)
+    compile(src, "<emitted %s>" % fmt, "exec")  # (the compiler refuses more than the grammar does, e.g. a repeated keyword)
     node = ast.parse(src).body[0]
     if fmt == "class":
         return cdd.class_.parse.class_(node, **kw)
